@@ -1,5 +1,5 @@
 /- L0 facts about CommodityChannelIndex::reset (split from Lemmas/CommodityChannelIndex.lean so that a change to one method only invalidates the facts about that method) -/
-import TaRs.Lemmas.CommodityChannelIndex
+import TaRs.Lemmas.Core.CommodityChannelIndex
 import TaRs.Lemmas.Reset.SimpleMovingAverage
 import TaRs.Lemmas.Reset.MeanAbsoluteDeviation
 set_option linter.unusedSectionVars false
